@@ -440,3 +440,33 @@ def heap_idioms(L, tab):
                             m.functions = [[0, 0, 0, len(body), 2, 0], [5, 1, len(body), len(helper), 1, 3]]
                             progs.append(("idiom:%s[%s,%s,%s].%s%s" % (cname, e1, e2, e3, aname, ".shared" if shared else ""), m.build(L)))
     return progs
+
+
+def arith_boundary_modules(L, tab):
+    """one tiny verified module per integer operation and ordered pair of boundary operands: PUSH a; PUSH b; OP; PRINTLN; PUSH 0; RET.
+    The pairs include every combination around zero, -1 and the ends of the 64-bit range, so division / remainder by 0 and by -1 of
+    INT64_MIN, and every wrap-around, are always among the cases."""
+    names = {nm: op for op, (nm, ops) in tab.items()}
+    vals = [0, 1, -1, 2, -2, 7, -7, 2**31 - 1, -2**31, 2**32, 2**63 - 1, -2**63 + 1, -2**63]
+    out = []
+    for opn in ("ADD", "SUB", "MUL", "DIV", "MOD", "EQ", "NE", "LT", "LE", "GT", "GE"):
+        for a in vals:
+            for b in vals:
+                m = nvm.Mod()
+                m.strings = [b"main"]
+                body = (nvm.encode_instr(names["PUSH_I64"], [a & (2**64 - 1)], tab) + nvm.encode_instr(names["PUSH_I64"], [b & (2**64 - 1)], tab)
+                        + nvm.encode_instr(names[opn], [], tab) + nvm.encode_instr(names["PRINTLN"], [], tab)
+                        + nvm.encode_instr(names["PUSH_I64"], [0], tab) + nvm.encode_instr(names["RET"], [], tab))
+                m.code = body
+                m.functions = [[0, 0, 0, len(body), 0, 0]]
+                m.entry = 0
+                out.append(("arith-%s-%d-%d" % (opn, a, b), m.build(L)))
+    for a in vals:
+        m = nvm.Mod()
+        m.strings = [b"main"]
+        body = (nvm.encode_instr(names["PUSH_I64"], [a & (2**64 - 1)], tab) + nvm.encode_instr(names["NEG"], [], tab) + nvm.encode_instr(names["PRINTLN"], [], tab)
+                + nvm.encode_instr(names["PUSH_I64"], [0], tab) + nvm.encode_instr(names["RET"], [], tab))
+        m.code = body
+        m.functions = [[0, 0, 0, len(body), 0, 0]]
+        out.append(("arith-NEG-%d" % a, m.build(L)))
+    return out
